@@ -208,3 +208,19 @@ Fixpoint hooks_from_configs (l : list (bytes * hook_opts)) : start :=
    0 means "no deadline" *)
 Definition timeouts_usable (t : redis_timeouts) : bool :=
   (0 <=? t_read t) && (0 <=? t_write t) && (0 <=? t_connect t).
+
+(* ---- the configuration surface the model covers: per component, its options (Go field name : yaml key) in declaration
+   order.  An option that is not listed here is an option whose effect the model says nothing about. *)
+Definition config_surface : list (bytes * list bytes) := [
+  (s2b "http", [s2b "Addr:addr"; s2b "HTTPSAddr:https_addr"; s2b "ReadTimeout:read_timeout"; s2b "WriteTimeout:write_timeout"; s2b "IdleTimeout:idle_timeout"; s2b "EnableKeepAlive:enable_keepalive"; s2b "TLSCertPath:tls_cert_path"; s2b "TLSKeyPath:tls_key_path"; s2b "AnnounceRoutes:announce_routes"; s2b "ScrapeRoutes:scrape_routes"; s2b "EnableRequestTiming:enable_request_timing"; s2b "<ParseOptions>:,inline"]);
+  (s2b "http.parse", [s2b "AllowIPSpoofing:allow_ip_spoofing"; s2b "RealIPHeader:real_ip_header"; s2b "MaxNumWant:max_numwant"; s2b "DefaultNumWant:default_numwant"; s2b "MaxScrapeInfoHashes:max_scrape_infohashes"]);
+  (s2b "udp", [s2b "Addr:addr"; s2b "PrivateKey:private_key"; s2b "MaxClockSkew:max_clock_skew"; s2b "EnableRequestTiming:enable_request_timing"; s2b "<ParseOptions>:,inline"]);
+  (s2b "udp.parse", [s2b "AllowIPSpoofing:allow_ip_spoofing"; s2b "MaxNumWant:max_numwant"; s2b "DefaultNumWant:default_numwant"; s2b "MaxScrapeInfoHashes:max_scrape_infohashes"]);
+  (s2b "memory", [s2b "GarbageCollectionInterval:gc_interval"; s2b "PrometheusReportingInterval:prometheus_reporting_interval"; s2b "PeerLifetime:peer_lifetime"; s2b "ShardCount:shard_count"]);
+  (s2b "redis", [s2b "GarbageCollectionInterval:gc_interval"; s2b "PrometheusReportingInterval:prometheus_reporting_interval"; s2b "PeerLifetime:peer_lifetime"; s2b "RedisBroker:redis_broker"; s2b "RedisReadTimeout:redis_read_timeout"; s2b "RedisWriteTimeout:redis_write_timeout"; s2b "RedisConnectTimeout:redis_connect_timeout"]);
+  (s2b "varinterval", [s2b "ModifyResponseProbability:modify_response_probability"; s2b "MaxIncreaseDelta:max_increase_delta"; s2b "ModifyMinInterval:modify_min_interval"]);
+  (s2b "clientapproval", [s2b "Whitelist:whitelist"; s2b "Blacklist:blacklist"]);
+  (s2b "torrentapproval", [s2b "Whitelist:whitelist"; s2b "Blacklist:blacklist"]);
+  (s2b "jwt", [s2b "Issuer:issuer"; s2b "Audience:audience"; s2b "JWKSetURL:jwk_set_url"; s2b "JWKUpdateInterval:jwk_set_update_interval"]);
+  (s2b "response", [s2b "AnnounceInterval:announce_interval"; s2b "MinAnnounceInterval:min_announce_interval"])
+].
